@@ -43,6 +43,8 @@ type trackConn struct {
 	*simnet.Conn
 	firstErr error
 	errOp    string
+	// scheduler steps at which a Write call that carries the start of a stream header began
+	hdrWrites []int
 }
 
 func (c *trackConn) Read(p []byte) (int, error) {
@@ -54,6 +56,9 @@ func (c *trackConn) Read(p []byte) (int, error) {
 }
 
 func (c *trackConn) Write(p []byte) (int, error) {
+	if sch := simrt.Active; sch != nil && (bytes.Contains(p, []byte("<stream:stream")) || bytes.Contains(p, []byte("<open "))) {
+		c.hdrWrites = append(c.hdrWrites, sch.Steps)
+	}
 	n, err := c.Conn.Write(p)
 	if err != nil && c.firstErr == nil {
 		c.firstErr, c.errOp = err, "write"
